@@ -325,12 +325,38 @@ def gen_cases(desc, env):
         for _ in range(40 if env.tier == 'quick' else 1200):
             muts, U = random_history(rnd, rnd.randint(4, 8), rnd.randint(10, 80))
             cases.append(history_case(muts, U, rnd=rnd, nsub=3))
+    elif kind == 'large':
+        # more than 64 vertices, erasures that leave holes among the internal slots, then queries on a sample
+        rnd = env.rng('large', idx)
+        for _ in range(6 if env.tier == 'quick' else 120):
+            n = rnd.choice([65, 66, 70, 96, 129, 130, 200])
+            U = list(range(1, n + 1))
+            muts = [{'k': 'add', 'u': u} for u in U]
+            for u in U:
+                for d in (u + 1, u + 64, u + 63, u + 65):
+                    if d <= n and rnd.random() < 0.5:
+                        muts.append({'k': 'conn', 's': u, 'd': d})
+            for _ in range(rnd.randint(1, n - 60)):
+                muts.append({'k': 'erase', 'u': rnd.choice(U)})
+            for _ in range(rnd.randint(0, 6)):
+                a = rnd.choice(U)
+                muts.append(rnd.choice([{'k': 'conn', 's': a, 'd': rnd.choice(U)}, {'k': 'inputs', 'u': a, 'set': sorted(rnd.sample(U, 2))}, {'k': 'updatefor', 'u': a}]))
+            ops = [{'op': 'graph.step', 'g': 'g', 'mut': {'k': 'new'}}]
+            for k, mu in enumerate(muts):
+                op = {'op': 'graph.step', 'g': 'g', 'mut': mu}
+                if k >= len(muts) - 3:
+                    anchor = rnd.choice(U)
+                    uni = sorted(set([anchor, min(n, anchor + 64), max(1, anchor - 64), min(n, anchor + 1)] + rnd.sample(U, 14)))
+                    op['universe'] = uni
+                    op['subsets'] = [sorted(rnd.sample(uni, rnd.randint(1, 4))) for _ in range(4)]
+                ops.append(op)
+            cases.append(core.case(ops, kind='history'))
     return cases
 
 
 def shards(tier, seed):
     return ([{'kind': 'digraphs', 'i': i} for i in range(NSH)] + [{'kind': 'short', 'i': i} for i in range(NSH)] +
-            [{'kind': 'random', 'i': i} for i in range(NSH)])
+            [{'kind': 'random', 'i': i} for i in range(NSH)] + [{'kind': 'large', 'i': i} for i in range(4)])
 
 
 def judge(res, cs, cr):
